@@ -714,6 +714,7 @@ class FnTr:
         if s.thread:
             s.first_in_block = {}
             order, s.backedges = s.cfg_order(parsed)
+            s.classify_loops(parsed)
             parsed = collections.OrderedDict((bn, parsed[bn]) for bn in order)
         for bn, pl in parsed.items():
             s.code.append('%s: ;' % s.label(bn))
@@ -762,10 +763,10 @@ class FnTr:
             for n, ct in s.decl.items():
                 if n in argn: continue
                 lines.append('  static %s %s;' % (ct, n))
-            lines.append('  unsigned vp_resume = 0; vp_blocked = 0;')
+            lines.append('  unsigned vp_resume = 0, vp_jump = 0; vp_blocked = 0;')
             for c in s.code:
                 lines.append('  ' + c)
-            lines.append('  END: if (!vp_fin) { vp_pc = vp_blocked ? vp_resume : vp_cs; }')
+            lines.append('  END: if (!vp_fin) { vp_pc = vp_jump ? vp_resume : vp_cs; }')
             lines.append('}')
             for t, an in f.args:
                 lines.append('#undef %s' % E.lname(an))
@@ -853,6 +854,7 @@ class FnTr:
                 for i, (k, v) in enumerate(last):
                     if v == 'label': ss.append(last[i + 1][1])
             succ[bn] = ss
+        s.succ = succ
         entry = next(iter(parsed))
         color = {}; post = []; back = set()
         stack = [(entry, iter(succ[entry]))]; color[entry] = 1
@@ -869,16 +871,39 @@ class FnTr:
         order = list(reversed(post))
         return order, back
 
+    def classify_loops(s, parsed):
+        """every back edge (n -> h) gets a kind:
+           'delay': the loop body has no visible operation except pause/yield  -> the back edge is dropped (falls out of the loop)
+           'spin' : body contains pause/yield (busy-wait)                      -> thread parks (blocked) and re-runs from the header later
+           'data' : anything else                                             -> thread yields its slice and continues from the header later
+        phi copies on every edge into a loop header are guarded (numbered) so that the loop-carried values survive the re-entry."""
+        succ = s.succ
+        pred = collections.defaultdict(list)
+        for a, ss in succ.items():
+            for b in ss: pred[b].append(a)
+        s.headers = set(h for n, h in s.backedges)
+        s.loopkind = {}
+        for (n, h) in s.backedges:
+            body = {h}; stack = [n]
+            while stack:
+                x = stack.pop()
+                if x in body: continue
+                body.add(x); stack.extend(pred[x])
+            has_hint = False; has_mem = False
+            for b in body:
+                for toks in parsed[b]:
+                    if not s.visible(toks): continue
+                    gids = [v for k, v in toks if k == 'gid']
+                    if gids and re.search(r'sse2\.pause|sched_yield|vp_spin_hint|vp_pause', gids[0]): has_hint = True
+                    else: has_mem = True
+            s.loopkind[(n, h)] = 'delay' if (has_hint and not has_mem) else ('spin' if has_hint else 'data')
+
     def label(s, bn):
         return 'B_' + re.sub(r'[^A-Za-z0-9_]', '_', bn[1:])
 
     def goto(s, target):
         """emit phi copies for edge curblock->target then goto"""
         E = s.E
-        if s.thread and (s.curblock, target) in s.backedges:
-            s.nvis += 1
-            s.cuts.append((s.nvis, target))
-            return '{ G(%d) { vp_blocked = 1; vp_resume = FIRST_%s; } goto END; }' % (s.nvis, s.label(target))
         ph = s.phis.get(target, [])
         moves = []
         for dest, ty, inc in ph:
@@ -898,6 +923,16 @@ class FnTr:
                 out.append('%s = %s;' % (t, E.val(v)))
             for (d, ty, v), t in zip(moves, tmps):
                 out.append('%s = %s;' % (s.setv(d, ty), t))
+        if s.thread and (s.curblock, target) in s.backedges:
+            kind = s.loopkind[(s.curblock, target)]
+            s.nvis += 1
+            s.cuts.append((s.nvis, target, kind))
+            if kind == 'spin':
+                return '{ G(%d) { %s vp_blocked = 1; vp_jump = 1; vp_resume = FIRST_%s; } goto END; }' % (s.nvis, ' '.join(out), s.label(target))
+            return '{ G(%d) { %s vp_jump = 1; vp_resume = FIRST_%s; } goto END; }' % (s.nvis, ' '.join(out), s.label(target))
+        if s.thread and target in s.headers and out:
+            s.nvis += 1
+            return '{ G(%d) { %s } goto %s; }' % (s.nvis, ' '.join(out), s.label(target))
         out.append('goto %s;' % s.label(target))
         return '{ ' + ' '.join(out) + ' }'
 
@@ -933,7 +968,9 @@ class FnTr:
                 p.next(); emit(s.goto(p.next()[1]))
             else:
                 t, c = s.tv(p); p.expect(','); p.expect('label'); a = p.next()[1]; p.expect(','); p.expect('label'); b = p.next()[1]
-                emit('if (%s) %s else %s' % (E.val(c), s.goto(a), s.goto(b)))
+                if s.thread and a != b and s.loopkind.get((s.curblock, a)) == 'delay' and (s.curblock, b) not in s.backedges: emit(s.goto(b))
+                elif s.thread and a != b and s.loopkind.get((s.curblock, b)) == 'delay' and (s.curblock, a) not in s.backedges: emit(s.goto(a))
+                else: emit('if (%s) %s else %s' % (E.val(c), s.goto(a), s.goto(b)))
             return
         if op == 'switch':
             t, v = s.tv(p); p.expect(','); p.expect('label'); dflt = p.next()[1]; p.expect('[')
@@ -1190,6 +1227,9 @@ class FnTr:
                 s.intrinsic(name, ret, args, A, d); return
             if s.thread and callee in s.M.funcs: s.atomic_callees.add(name)
             emit('%s%s(%s);' % (pre, E.fname(callee), ', '.join(A)))
+            if s.thread and callee not in s.M.funcs:
+                # an external stub may ask to park the calling thread (VP_BLOCK() in rt/vp.h): the call is re-executed when the thread runs next
+                emit('if (vp_block_req) { vp_block_req = 0; vp_blocked = 1; vp_jump = 1; vp_resume = %d; goto END; }' % s.nvis)
         else:
             sig = '%s (*)(%s)' % (E.ct(ret), ', '.join(E.ct(t) for t, v in args) or 'void')
             emit('%s((%s)%s)(%s);' % (pre, sig, E.lname(callee), ', '.join(A)))
@@ -1246,7 +1286,7 @@ void *memcpy(void *, const void *, size_t); void *memset(void *, int, size_t); v
 typedef uint8_t u8; typedef uint16_t u16; typedef uint32_t u32; typedef uint64_t u64; typedef unsigned __int128 u128;
 typedef void (*vp_fn)(void);
 typedef void vp_fnty(void);
-void vp_pause(void); void vp_trap(void); void vp_unreachable(void); extern unsigned vp_left; extern unsigned vp_changed;
+void vp_pause(void); void vp_trap(void); void vp_unreachable(void); extern unsigned vp_left; extern unsigned vp_changed; extern unsigned vp_block_req;
 #define G(k) if (vp_pc <= (k) && (k) < vp_cs)
 #define SBD 2
 struct vp_sb { void* a[SBD]; u64 v[SBD]; u8 sz[SBD]; unsigned n; };
@@ -1313,6 +1353,7 @@ def main():
                 if TSO: protos.append('void %s_flush(unsigned n);' % on)
                 bodies.append(body)
                 summary['threads'][on] = {'visible_ops': tr.nvis, 'cut_back_edges': len(tr.cuts),
+                                          'loops': dict(collections.Counter(c[2] for c in tr.cuts)),
                                           'atomic_callees': sorted(tr.atomic_callees)}
             continue
         tr = FnTr(E, f, thread=False)
